@@ -276,6 +276,40 @@ type brokenBox struct {
 	resumeAt        tree.ResumeStack
 }
 
+// brokenBoxes maps out-of-flow boxes to their broken state, keeping
+// the insertion order so that the layout does not depend on the map iteration order
+type brokenBoxes struct {
+	keys   []Box
+	values map[Box]brokenBox
+}
+
+func newBrokenBoxes() *brokenBoxes { return &brokenBoxes{values: make(map[Box]brokenBox)} }
+
+func (bb *brokenBoxes) set(key Box, value brokenBox) {
+	if _, has := bb.values[key]; !has {
+		bb.keys = append(bb.keys, key)
+	}
+	bb.values[key] = value
+}
+
+func (bb *brokenBoxes) delete(key Box) {
+	if _, has := bb.values[key]; !has {
+		return
+	}
+	delete(bb.values, key)
+	for i, k := range bb.keys {
+		if k == key {
+			bb.keys = append(bb.keys[:i:i], bb.keys[i+1:]...)
+			break
+		}
+	}
+}
+
+func (bb *brokenBoxes) clear() {
+	bb.keys = nil
+	bb.values = make(map[Box]brokenBox)
+}
+
 // layoutContext stores the global context needed during layout,
 // such as various caches.
 type layoutContext struct {
@@ -294,7 +328,7 @@ type layoutContext struct {
 	pageMaker           []tree.PageMaker
 	excludedShapes      *[]*bo.BoxFields
 	excludedShapesLists [][]*bo.BoxFields
-	brokenOutOfFlow     map[Box]brokenBox
+	brokenOutOfFlow     *brokenBoxes
 
 	footnotes            []Box
 	currentPageFootnotes []Box
@@ -329,7 +363,7 @@ func newLayoutContext(html *tree.HTML, stylesheets []tree.CSS,
 	self.TargetCollector = tree.NewTargetCollector()
 	self.counterStyle = counterStyle
 	self.runningElements = make(map[string]map[int][]Box)
-	self.brokenOutOfFlow = make(map[Box]brokenBox)
+	self.brokenOutOfFlow = newBrokenBoxes()
 
 	// Cache
 	self.stringSet = make(map[string]map[int][]string)
